@@ -6,13 +6,17 @@ import Juniper.Generated.Watch
   (`none` = the nil interface). The typed wrapper is the code's: call `sync.Map`, then assert the
   result back to the type parameter in the form (`plain` / `commaOk`) and behind the guard that
   gofacts finds in the source today (`MapCfg.gen`).
+  `Range` is `sync.Map.Range` (calls the closure sequentially for each entry, stops when it returns
+  false) applied to the closure whose statements gofacts classifies (`MapCfg.gen.rangeBody`): the
+  typed callback's result stops the iteration only because the closure ends in `return f(key, value)`.
 * `Watchable`, `Future` and `Lazy` are labelled transition systems, one label = one atomic step
   of one goroutine (one `atomic.Pointer` operation, one channel operation); their shape is tied to
-  the classified statement lists / select table of the source through `WCfg.gen`.
+  the classified statement lists / select table / declared field types of the source through
+  `WCfg.gen` (Watchable), `FCfg.gen` (Future) and `lazyOnceGen` (Lazy).
 -/
 namespace Juniper.Model.Watch
 open Juniper.Facts
-open Juniper.Gen.Watch (AssertForm WOp)
+open Juniper.Gen.Watch (AssertForm WOp MOp ROp)
 
 /-! ## sync.Map by its specification -/
 
@@ -72,8 +76,19 @@ def SMap.compareAndDelete (m : SMap UK UV) (k : Any UK) (old : Any UV) : SMap UK
   | some cur => if cur = old then (m.erase k, true) else (m, false)
   | none => (m, false)
 
-/-- `Range` visits every entry once (order unspecified; the callback may stop it) -/
+/-- the entries in the order in which `Range` visits them (sync.Map leaves the order unspecified;
+the model fixes it as insertion order, the harness compares order-independently) -/
 def SMap.range (m : SMap UK UV) : List (Any UK × Any UV) := m
+
+/-- `Range(g)` by sync.Map's documentation: "calls f sequentially for each key and value present
+in the map. If f returns false, range stops the iteration." — the entries handed to `g`, in
+order: every entry up to and including the first one on which `g` returns false. -/
+def visitWhile (g : Any UK → Any UV → Bool) : List (Any UK × Any UV) → List (Any UK × Any UV)
+  | [] => []
+  | p :: rest => if g p.1 p.2 then p :: visitWhile g rest else [p]
+
+def SMap.rangeWith (m : SMap UK UV) (g : Any UK → Any UV → Bool) : List (Any UK × Any UV) :=
+  visitWhile g m.range
 
 end SyncMap
 
@@ -111,6 +126,17 @@ def Out.map {α β : Type} (f : α → β) : Out α → Out β
   | .ok a => .ok (f a)
   | .panic => .panic
 
+/-- `sync.Map.Range` for a closure that has effects: one invocation yields what the closure did
+(`α`) and its result (continue?), or panics (the panic propagates out of `Range`). The closure is
+called sequentially for each entry and the iteration stops when it returns false. -/
+def rangeG {UK UV α : Type} (g : Any UK → Any UV → Out (List α × Bool)) : List (Any UK × Any UV) → Out (List α)
+  | [] => .ok []
+  | p :: rest =>
+    match g p.1 p.2 with
+    | .panic => .panic
+    | .ok (did, true) => (rangeG g rest).map (did ++ ·)
+    | .ok (did, false) => .ok did
+
 /-- the code's assertion of an interface value back to the type parameter -/
 def assertT {T U : Type} (kd : Kind T U) : AssertForm → Any U → Out T
   | .plain, none => .panic                 -- `x.(T)` on the nil interface
@@ -127,22 +153,39 @@ structure MapCfg where
   losGuard : Bool
   swapAssert : AssertForm
   swapGuard : Bool
-  rangeV : AssertForm
-  rangeK : AssertForm
-  /-- the calls to sync.Map are the expected ones and Store/Delete/CompareAndSwap/CompareAndDelete
-  forward unchanged -/
+  /-- the classified statements of the closure `Range` hands to `sync.Map.Range` -/
+  rangeBody : List ROp
+  /-- the bodies of Load/LoadAndDelete/LoadOrStore/Swap are `call; [guard;] assert; return` and
+  nothing else, `Range` is `m.m.Range(closure)`, Store/Delete/CompareAndSwap/CompareAndDelete
+  forward unchanged, and the field `m` is a `sync.Map` -/
   forwards : Bool
   deriving DecidableEq, Repr
 
+/-- the assertion form of a classified method body (`absent` if it has none) -/
+def bodyForm : List MOp → AssertForm
+  | [] => .absent
+  | .assertV f :: _ => f
+  | _ :: rest => bodyForm rest
+
+def bodyGuard (b : List MOp) : Bool := b.contains .guardAbsent
+
+/-- the body is exactly: the call into sync.Map, the optional absent-key guard, ONE assertion, the
+return — this is the shape `guarded` below gives a meaning to; an extra statement (`.other _`), a
+second call, a missing return make it false -/
+def bodyShape (b : List MOp) : Bool :=
+  b == [.call] ++ (if bodyGuard b then [.guardAbsent] else []) ++ [.assertV (bodyForm b), .ret]
+
 def MapCfg.gen : MapCfg :=
-  { loadAssert := Gen.Watch.loadAssert, loadGuard := Gen.Watch.loadGuard
-    ladAssert := Gen.Watch.loadAndDeleteAssert, ladGuard := Gen.Watch.loadAndDeleteGuard
-    losAssert := Gen.Watch.loadOrStoreAssert, losGuard := Gen.Watch.loadOrStoreGuard
-    swapAssert := Gen.Watch.swapAssert, swapGuard := Gen.Watch.swapGuard
-    rangeV := Gen.Watch.rangeValueAssert, rangeK := Gen.Watch.rangeKeyAssert
-    forwards := Gen.Watch.loadCalls && Gen.Watch.loadAndDeleteCalls && Gen.Watch.loadOrStoreCalls
-      && Gen.Watch.swapCalls && Gen.Watch.storeForwards && Gen.Watch.deleteForwards
-      && Gen.Watch.casForwards && Gen.Watch.cadForwards }
+  { loadAssert := bodyForm Gen.Watch.loadBody, loadGuard := bodyGuard Gen.Watch.loadBody
+    ladAssert := bodyForm Gen.Watch.loadAndDeleteBody, ladGuard := bodyGuard Gen.Watch.loadAndDeleteBody
+    losAssert := bodyForm Gen.Watch.loadOrStoreBody, losGuard := bodyGuard Gen.Watch.loadOrStoreBody
+    swapAssert := bodyForm Gen.Watch.swapBody, swapGuard := bodyGuard Gen.Watch.swapBody
+    rangeBody := Gen.Watch.rangeBody
+    forwards := bodyShape Gen.Watch.loadBody && bodyShape Gen.Watch.loadAndDeleteBody
+      && bodyShape Gen.Watch.loadOrStoreBody && bodyShape Gen.Watch.swapBody
+      && Gen.Watch.rangeCalls && Gen.Watch.storeForwards && Gen.Watch.deleteForwards
+      && Gen.Watch.casForwards && Gen.Watch.cadForwards
+      && Gen.Watch.mapFields == [("m", "sync.Map")] && Gen.Watch.mapImportsSync }
 
 section Typed
 variable {K UK V UV : Type} [DecidableEq UK] [DecidableEq UV]
@@ -181,23 +224,50 @@ def tCompareAndDelete (kk : Kind K UK) (vk : Kind V UV) (m : SMap UK UV) (k : K)
   let r := m.compareAndDelete (kk.toAny k) (vk.toAny old)
   (r.1, .ok r.2)
 
-/-- `Range` with a callback that keeps going: the visited typed pairs, or a panic at the first
-entry whose key or value cannot be asserted -/
-def tRangeAux (cfg : MapCfg) (kk : Kind K UK) (vk : Kind V UV) : List (Any UK × Any UV) → Out (List (K × V))
-  | [] => .ok []
-  | (k, v) :: rest =>
-    match assertT kk cfg.rangeK k, assertT vk cfg.rangeV v with
-    | .ok k', .ok v' => (tRangeAux cfg kk vk rest).map (fun l => (k', v') :: l)
-    | _, _ => .panic
+/-- registers of one invocation of the closure `Range` hands to `sync.Map.Range` -/
+structure ClosureSt (K V : Type) where
+  key : Option K := none
+  value : Option V := none
+  /-- the invocations of the typed callback `f` so far (arguments) -/
+  calls : List (K × V) := []
 
-def tRange (cfg : MapCfg) (kk : Kind K UK) (vk : Kind V UV) (m : SMap UK UV) : Out (List (K × V)) :=
-  tRangeAux cfg kk vk m.range
+/-- One invocation of that closure on the entry `(k, v)`, statement by statement (the list gofacts
+classifies): what it called `f` with, and the closure's own result — which `sync.Map.Range`
+takes as "keep going?". A statement the model does not understand, a use of `key`/`value` before
+its assertion, or falling off the end (the closure must return a `bool`) is `.panic`: no theorem
+about such a body can be proved. -/
+def closureRun (kk : Kind K UK) (vk : Kind V UV) (f : K → V → Bool) (k : Any UK) (v : Any UV) :
+    List ROp → ClosureSt K V → Out (List (K × V) × Bool)
+  | [], _ => .panic
+  | .assertKey form :: rest, st =>
+    match assertT kk form k with
+    | .ok k' => closureRun kk vk f k v rest { st with key := some k' }
+    | .panic => .panic
+  | .assertVal form :: rest, st =>
+    match assertT vk form v with
+    | .ok v' => closureRun kk vk f k v rest { st with value := some v' }
+    | .panic => .panic
+  | .retCallback :: _, st =>
+    match st.key, st.value with
+    | some k', some v' => .ok (st.calls ++ [(k', v')], f k' v')
+    | _, _ => .panic
+  | .callDiscard :: rest, st =>
+    match st.key, st.value with
+    | some k', some v' => closureRun kk vk f k v rest { st with calls := st.calls ++ [(k', v')] }
+    | _, _ => .panic
+  | .retConst b :: _, st => .ok (st.calls, b)
+  | .other _ :: _, _ => .panic
+
+/-- `Range(f)`: `sync.Map.Range` applied to the closure of the source. The result is the sequence
+of invocations of the typed callback `f` (its arguments, in order), or a panic. -/
+def tRange (cfg : MapCfg) (kk : Kind K UK) (vk : Kind V UV) (m : SMap UK UV) (f : K → V → Bool) : Out (List (K × V)) :=
+  rangeG (fun k v => closureRun kk vk f k v cfg.rangeBody {}) m.range
 
 end Typed
 
 /-! ## Watchable -/
 
-/-- what the model reads off `Watchable.Set` / `Value`, `Future`, `Lazy` -/
+/-- what the model reads off `Watchable.Set` / `Value` and the declaration of `Watchable` -/
 structure WCfg where
   /-- `Set`: allocate, `Swap`, then close the old channel … -/
   setClosesOld : Bool
@@ -207,25 +277,21 @@ structure WCfg where
   setShape : Bool
   /-- `Value` is exactly: load; if nil {make chan; empty cell; if CAS(nil, empty) {return zero, c}; reload}; return inner -/
   valueShape : Bool
-  /-- `Fill` stores the value before closing the channel -/
-  fillStoresFirst : Bool
-  fillShape : Bool
-  /-- `Wait` receives from the channel, then reads the value -/
-  waitShape : Bool
-  /-- `WaitContext`: select over ctx.Done() (returns zero, ctx.Err()) and f.c (falls through to return f.x, nil) -/
-  waitCtxShape : Bool
-  /-- `Lazy` is `sync.OnceValue` -/
-  lazyOnce : Bool
+  /-- the field `p` on which `Set` / `Value` call `Swap`, `Load`, `CompareAndSwap(nil, _)` is declared
+  `atomic.Pointer[watchableInner[T]]` with `atomic` = sync/atomic (so each of those calls is ONE
+  atomic step, which is what a label of `wstep` is), and a cell is `{t T; c chan struct{}}` -/
+  ptrAtomic : Bool
   deriving DecidableEq, Repr
 
 def WCfg.std : WCfg :=
-  { setClosesOld := true, setCloseGuarded := true, setShape := true, valueShape := true,
-    fillStoresFirst := true, fillShape := true, waitShape := true, waitCtxShape := true, lazyOnce := true }
+  { setClosesOld := true, setCloseGuarded := true, setShape := true, valueShape := true, ptrAtomic := true }
 
+/-- the classified body of a `select` arm; an arm that is missing or listed twice has no meaning -/
 def armBody (t : List (Arm × List WOp)) (a : Arm) : List WOp :=
-  match t.find? (fun p => p.1 == a) with
-  | some p => p.2
-  | none => [.other "missing arm"]
+  match t.filter (fun p => p.1 == a) with
+  | [p] => p.2
+  | [] => [.other "missing arm"]
+  | _ => [.other "duplicate arm"]
 
 def WCfg.gen : WCfg :=
   let s := Gen.Watch.setOps
@@ -234,15 +300,38 @@ def WCfg.gen : WCfg :=
     setShape := s == [.alloc, .swap, .ifOldNonNil, .closeOld, .endBlock] || s == [.alloc, .swap, .closeOld] || s == [.alloc, .swap]
     valueShape := Gen.Watch.valueOps ==
       [.load, .ifInnerNil, .mkChan, .mkEmpty, .ifCas, .declZero, .retZeroC, .endBlock, .reload, .endBlock, .retInner]
-    fillStoresFirst := Gen.Watch.fillOps == [.storeX, .closeC]
+    ptrAtomic := Gen.Watch.watchableFields == [("p", "atomic.Pointer[watchableInner[T]]")]
+      && Gen.Watch.watchableInnerFields == [("t", "T"), ("c", "chan struct{}")]
+      && Gen.Watch.watchableImportsAtomic }
+
+/-- what the model reads off `Future` -/
+structure FCfg where
+  /-- `Fill` stores the value before closing the channel -/
+  fillStoresFirst : Bool
+  /-- `Fill` is store+close in either order; `NewFuture` is `&Future[T]{c: make(chan struct{})}` (an
+  unbuffered, open channel) and the fields are `c chan struct{}`, `x T` -/
+  fillShape : Bool
+  /-- `Wait` receives from the channel, then reads the value -/
+  waitShape : Bool
+  /-- `WaitContext`: select over ctx.Done() (returns zero, ctx.Err()) and f.c (falls through to return f.x, nil) -/
+  waitCtxShape : Bool
+  deriving DecidableEq, Repr
+
+def FCfg.std : FCfg := { fillStoresFirst := true, fillShape := true, waitShape := true, waitCtxShape := true }
+
+def FCfg.gen : FCfg :=
+  { fillStoresFirst := Gen.Watch.fillOps == [.storeX, .closeC]
     fillShape := (Gen.Watch.fillOps == [.storeX, .closeC] || Gen.Watch.fillOps == [.closeC, .storeX])
-      && Gen.Watch.futureChanArgs == 1
+      && Gen.Watch.futureChanArgs == 1 && Gen.Watch.newFutureBody
+      && Gen.Watch.futureFields == [("c", "chan struct{}"), ("x", "T")]
     waitShape := Gen.Watch.futureWaitOps == [.recvC, .retX]
     waitCtxShape := Gen.Watch.waitContextOps == [.sel, .retXNil]
       && sameArms Gen.Watch.waitContextArms [.recv "ctx.Done()", .recv "f.c"]
       && armBody Gen.Watch.waitContextArmBodies (.recv "ctx.Done()") == [.declZero, .retZeroCtxErr]
-      && armBody Gen.Watch.waitContextArmBodies (.recv "f.c") == []
-    lazyOnce := Gen.Watch.lazyIsOnceValue }
+      && armBody Gen.Watch.waitContextArmBodies (.recv "f.c") == [] }
+
+/-- `Lazy` is `sync.OnceValue` (the body of `Lazy` is `return sync.OnceValue(f)`) -/
+def lazyOnceGen : Bool := Gen.Watch.lazyIsOnceValue
 
 /-- one `watchableInner`, identified by its channel (= its position in the order in which cells
 became current); `val = none` is the zero value -/
@@ -340,7 +429,14 @@ def wstep (cfg : WCfg) (s : WState) : WLabel → Option WState
       | none => some (setReader { s with ptr := some s.cells.length,
                                          cells := s.cells ++ [{ val := none, closed := false, epoch := s.hist.length }] } j
                         (.done s.cells.length s.hist.length))
-      | some _ => some (setReader s j .casFailed)
+      | some _ =>
+        if cfg.ptrAtomic then some (setReader s j .casFailed)
+        else
+          -- `p` is not an `atomic.Pointer`: nothing says that comparing and swapping is one step, so
+          -- the model lets the swap happen although a `Set` came in between (it is smashed)
+          some (setReader { s with ptr := some s.cells.length,
+                                   cells := s.cells ++ [{ val := none, closed := false, epoch := s.hist.length }] } j
+                  (.done s.cells.length s.hist.length))
     | _ => none
   | .reload j =>
     match s.readers[j]? with
@@ -359,6 +455,16 @@ def wrun (cfg : WCfg) : WState → List WLabel → Option WState
   | s, l :: ls => match wstep cfg s l with
     | some s' => wrun cfg s' ls
     | none => none
+
+/-- `t` is reachable from `s` (zero or more steps of any goroutines) -/
+inductive WSteps (cfg : WCfg) : WState → WState → Prop where
+  | refl (s : WState) : WSteps cfg s s
+  | step {s t u : WState} (l : WLabel) : WSteps cfg s t → wstep cfg t l = some u → WSteps cfg s u
+
+/-- the label is a step of the `Value` call `j` -/
+def WLabel.ofReader (j : Nat) : WLabel → Bool
+  | .load k | .cas k | .reload k => k == j
+  | _ => false
 
 /-- the most recently `Set` value (`none` = the zero value before the first `Set`) -/
 def latest (h : List Int) : Option Int := h.getLast?
@@ -429,7 +535,7 @@ def doStore (s : FState) (v : Int) : FState := { s with x := some v }
 /-- `close(f.c)`: `none` = panic (already closed) -/
 def doClose (s : FState) : Option FState := if s.closed then none else some { s with closed := true }
 
-def fstep (cfg : WCfg) (s : FState) : FLabel → Option FState
+def fstep (cfg : FCfg) (s : FState) : FLabel → Option FState
   | .fill1 i =>
     match s.fillers[i]? with
     | some (v, .idle) =>
@@ -467,11 +573,12 @@ def fstep (cfg : WCfg) (s : FState) : FLabel → Option FState
     | some w => if w.cancelled then none else some { s with waiters := s.waiters.modify j (fun w => { w with cancelled := true }) }
     | none => none
 
-inductive FReach (cfg : WCfg) : FState → Prop where
+inductive FReach (cfg : FCfg) : FState → Prop where
   | init (vals : List Int) (ws : List Bool) : FReach cfg (finit vals ws)
   | step {s s' : FState} (l : FLabel) : FReach cfg s → fstep cfg s l = some s' → FReach cfg s'
 
-/-! ## Lazy = sync.OnceValue, by its specification -/
+/-! ## Lazy = sync.OnceValue, by its specification (if the source says `return sync.OnceValue(f)`;
+otherwise nothing is known about it and the model lets every call run `f`) -/
 
 inductive OnceSt where
   | fresh
@@ -504,10 +611,11 @@ inductive LLabel where
 
 def linit (n : Nat) : LState := { once := .fresh, runs := 0, callers := List.replicate n .idle }
 
-def lstep (s : LState) : LLabel → Option LState
+def lstep (once : Bool) (s : LState) : LLabel → Option LState
   | .enter j =>
     match s.callers[j]? with
     | some .idle =>
+      if !once then some { s with runs := s.runs + 1, callers := s.callers.set j .inF } else
       match s.once with
       | .fresh => some { once := .running, runs := s.runs + 1, callers := s.callers.set j .inF }
       | .running => some { s with callers := s.callers.set j .waiting }
@@ -522,8 +630,8 @@ def lstep (s : LState) : LLabel → Option LState
     | some .waiting, .done v => some { s with callers := s.callers.set j (.done v) }
     | _, _ => none
 
-inductive LReach : LState → Prop where
-  | init (n : Nat) : LReach (linit n)
-  | step {s s' : LState} (l : LLabel) : LReach s → lstep s l = some s' → LReach s'
+inductive LReach (once : Bool) : LState → Prop where
+  | init (n : Nat) : LReach once (linit n)
+  | step {s s' : LState} (l : LLabel) : LReach once s → lstep once s l = some s' → LReach once s'
 
 end Juniper.Model.Watch
